@@ -2,7 +2,7 @@
 (* X10 part (a): design-level check and case export; definitions in ElicitDefs. *)
 (* TLC enumerates the complete product, evaluates the property on the          *)
 (* code-shaped outcome of every case, requires that it fails exactly on the    *)
-(* named deviations (D1..D3 of ElicitDefs), and exports the cases for the Go   *)
+(* named deviations (D2, D3 of ElicitDefs), and exports the cases for the Go   *)
 (* harness (harness/mcp/x10_elicit_test.go).                                   *)
 EXTENDS ElicitDefs, Json, SequencesExt
 
@@ -10,7 +10,7 @@ Leads == {c \in CaseSet : ~Holds(c, Expected(c))}
 \* the property fails on the code-shaped outcome exactly where a deviation is named
 DesignOK == \A c \in CaseSet : Holds(c, Expected(c)) <=> Deviation(c) = "none"
 \* and each deviation breaks the clause it is said to break, and nothing else
-DevClause == [D1 |-> "A1.NoCrash", D2 |-> "A3.WellFormedOnly", D3 |-> "A5.Matches"]
+DevClause == [D2 |-> "A3.WellFormedOnly", D3 |-> "A5.Matches"]
 DevExact == \A c \in Leads : \A n \in Clauses : Clause(n, c, Expected(c)) <=> n # DevClause[Deviation(c)]
 
 \* vacuity witnesses
@@ -27,7 +27,8 @@ W9(c) == ~SchemaWF(c.sch) /\ c.kind = "schema" /\ Expected(c).asked = 0
 W10(c) == c.path = "rawc" /\ Expected(c).ret = "error" /\ Expected(c).code = "local" /\ Expected(c).sent /\ c.res.val = "wrongtype"
 W11(c) == c.path = "rawc" /\ Expected(c).ret = "result" /\ Expected(c).pv = "default"
 Witnesses == /\ Some(W1) /\ Some(W2) /\ Some(W3) /\ Some(W4) /\ Some(W5) /\ Some(W6) /\ Some(W7) /\ Some(W8) /\ Some(W9) /\ Some(W10) /\ Some(W11)
-             /\ (\A d \in {"D1", "D2", "D3"} : \E c \in CaseSet : Deviation(c) = d)
+             /\ (\A d \in {"D2", "D3"} : \E c \in CaseSet : Deviation(c) = d)
+             /\ (\E c \in CaseSet : c.params # "normal" /\ c.handler /\ Expected(c).code = "ip")
              /\ (\A path \in Paths \ {"d0728"} : \E c \in CaseSet : c.path = path /\ Expected(c).asked = 1)
 
 CaseSeq == SetToSeq(CaseSet)
